@@ -160,15 +160,16 @@ theorem lemma1Factor_shape {pop : Option Var} {ch pa : List Var} {p s : List Nam
 
 /-- the data of `ProbShape` for `q = P_w(H | Z)` -/
 structure Shape (G : MG Name) (ch pa : List Var) (H : List Name) (w : List Iv) : Prop where
-  perm : (ch.map (·.name)).Perm H
+  covers : ∀ h ∈ H, h ∈ ch.map (·.name)
+  extras : ∀ c ∈ ch, c.name ∈ H ∨ c.name ∈ pa.map (·.name) ∨ c.name ∈ w.map (·.name)
   world : InWorld w (ch ++ pa)
-  ivs : ∀ i ∈ w, i.star = false ∧ i.name ∉ H ∧ i.name ∈ G.nodes
-  parents : ∀ p ∈ pa, p.name ∉ H ∧ p.name ∈ G.nodes
+  ivs : ∀ i ∈ w, i.star = false ∧ i.name ∉ H
+  parents : ∀ p ∈ pa, p.name ∉ H
 
 theorem shape_of_probShape {pop : Option Var} {ch pa : List Var} {H : List Name}
-    (h : ProbShape G.nodes (.prob pop ch pa) H) : ∃ w, Shape G ch pa H w := by
-  obtain ⟨w, h1, h2, h3, h4⟩ := h
-  exact ⟨w, ⟨h1, h2, h3, h4⟩⟩
+    (h : ProbShape (.prob pop ch pa) H) : ∃ w, Shape G ch pa H w := by
+  obtain ⟨w, h1, h1', h2, h3, h4⟩ := h
+  exact ⟨w, ⟨h1, h1', h2, h3, h4⟩⟩
 
 /-- `den (P_w(H | Z)) = F X (H ∪ Z) / (1 or F X Z)` -/
 theorem den_shape (hM : M.Compatible G) (hG : G.WF) (σ σ' : Val) {pop : Option Var} {ch pa : List Var}
@@ -178,13 +179,26 @@ theorem den_shape (hM : M.Compatible G) (hG : G.WF) (σ σ' : Val) {pop : Option
         (if pa.isEmpty then 1 else F M G (w.map (·.name)) (pa.map (·.name)) σ) := by
   have hc : ch ≠ [] := by
     intro h0; subst h0
-    exact hH (List.perm_nil.mp hs.perm.symm |>.symm ▸ rfl) |>.elim
+    cases H with
+    | nil => exact hH rfl
+    | cons a l => have := hs.covers a List.mem_cons_self; simp at this
   rw [den_prob_world hM hG σ σ' w (fun i hi => (hs.ivs i hi).1) pop ch pa hc hs.world]
   congr 1
   · apply congrFun
-    apply F_congr
-    intro v
-    simp only [List.map_append, List.mem_append, hs.perm.mem_iff]
+    apply F_congr_mod
+    intro v hvX
+    simp only [List.map_append, List.mem_append]
+    constructor
+    · rintro (h | h)
+      · rcases List.mem_map.mp h with ⟨c, hc', rfl⟩
+        rcases hs.extras c hc' with h' | h' | h'
+        · exact Or.inl h'
+        · exact Or.inr h'
+        · exact absurd h' hvX
+      · exact Or.inr h
+    · rintro (h | h)
+      · exact Or.inl (hs.covers v h)
+      · exact Or.inr h
   · cases pa <;> simp
 
 /-- the facts about a split `H = p ++ v :: s` of the duplicate-free order used below -/
@@ -211,11 +225,11 @@ theorem ratio_prob (hM : M.Compatible G) (hG : G.WF) (σ σ' : Val) {pop : Optio
   have hXH : ∀ x ∈ H, x ∉ X := by
     intro x hx hxX
     rcases List.mem_map.mp hxX with ⟨i, hi, rfl⟩
-    exact (hs.ivs i hi).2.1 hx
+    exact (hs.ivs i hi).2 hx
   have hZH : ∀ x ∈ H, x ∉ Z := by
     intro x hx hxZ
     rcases List.mem_map.mp hxZ with ⟨q, hq, rfl⟩
-    exact (hs.parents q hq).1 hx
+    exact (hs.parents q hq) hx
   have hden : den (M.env G) σ' (.prob pop ch pa) =
       fun τ => F M G X (H ++ Z) τ / (if pa.isEmpty then 1 else F M G X Z τ) :=
     funext fun τ => den_shape hM hG τ σ' hs hHne
@@ -276,7 +290,7 @@ theorem den_lemma1Factor (hM : M.Compatible G) (hG : G.WF) (σ σ' : Val) {pop :
         (if pa.isEmpty && p.isEmpty then 1 else F M G (w.map (·.name)) (p ++ pa.map (·.name)) σ) := by
   subst e
   obtain ⟨P', rfl, hP, hPnil⟩ := lemma1Factor_shape hvp h
-  have hnames : ∀ n ∈ p ++ v :: s, n ∈ ch.map (·.name) := fun n hn => hs.perm.mem_iff.mpr hn
+  have hnames : ∀ n ∈ p ++ v :: s, n ∈ ch.map (·.name) := fun n hn => hs.covers n hn
   have hvw : inWorld (world ch) v ∈ ch := inWorld_mem (hnames v (by simp))
   have hworld : InWorld w ([inWorld (world ch) v] ++ P') := by
     intro x hx
@@ -317,7 +331,7 @@ theorem den_lemma1Factor (hM : M.Compatible G) (hG : G.WF) (σ σ' : Val) {pop :
 /-- **Lemma 1 (i), expression level**: for `q = P_w(H | Z)` the product built by
 `compute_c_factor_conditioning_on_topological_predecessors` denotes the same Lemma-4 product of ratios of `q`. -/
 theorem den_lemma1 (hM : M.Compatible G) (hG : G.WF) (σ' : Val) {pop : Option Var} {ch pa : List Var}
-    {H : List Name} (hshape : ProbShape G.nodes (.prob pop ch pa) H) (hnd : H.Nodup)
+    {H : List Name} (hshape : ProbShape (.prob pop ch pa) H) (hnd : H.Nodup)
     (hsub : ∀ x ∈ H, x ∈ G.nodes) {district : List Name} {e : Expr}
     (h : lemma1 district (.prob pop ch pa) H = .ok e) (σ : Val) (R : Name → Rat)
     (hR : ∀ v p s, H = p ++ v :: s → R v = ratio M.card (den (M.env G) σ' (.prob pop ch pa)) p v s σ) :
@@ -396,18 +410,21 @@ theorem ancestralProb_probShape {pop : Option Var} {ch pa : List Var} {H oA : Li
       (∀ x, x ∈ P'.map (·.name) ↔ x ∈ pa.map (·.name)) := by
   obtain ⟨c, P', rfl, hc, hP, hPnil⟩ := ancestralProb_shape h
   rw [dedup'_eq_of_nodup _ (nodup_map_inWorld ch hoA)] at hc
-  refine ⟨c, P', rfl, ⟨?_, ?_, ?_, ?_⟩, ?_, ?_⟩
-  · have := hc.map (·.name)
+  have hcn : (c.map (·.name)).Perm oA := by
+    have := hc.map (·.name)
     rwa [map_inWorld_names] at this
+  refine ⟨c, P', rfl, ⟨?_, ?_, ?_, ?_, ?_⟩, ?_, ?_⟩
+  · exact fun a ha => hcn.mem_iff.mpr ha
+  · exact fun x hx => Or.inl (hcn.mem_iff.mp (List.mem_map.mpr ⟨x, hx, rfl⟩))
   · intro x hx
     rcases List.mem_append.mp hx with hx | hx
     · rcases List.mem_map.mp (hc.mem_iff.mp hx) with ⟨n, hn, rfl⟩
-      exact hs.world _ (List.mem_append_left _ (inWorld_mem (hs.perm.mem_iff.mpr (hAH n hn))))
+      exact hs.world _ (List.mem_append_left _ (inWorld_mem (hs.covers _ (hAH n hn))))
     · exact hs.world _ (List.mem_append_right _ ((hP x).mp hx))
   · intro i hi
-    exact ⟨(hs.ivs i hi).1, fun hm => (hs.ivs i hi).2.1 (hAH _ hm), (hs.ivs i hi).2.2⟩
+    exact ⟨(hs.ivs i hi).1, fun hm => (hs.ivs i hi).2 (hAH _ hm)⟩
   · intro p hp
-    exact ⟨fun hm => (hs.parents p ((hP p).mp hp)).1 (hAH _ hm), (hs.parents p ((hP p).mp hp)).2⟩
+    exact fun hm => (hs.parents p ((hP p).mp hp)) (hAH _ hm)
   · cases hP' : P' with
     | nil => have := hPnil.mp hP'; simp [this]
     | cons a l =>
@@ -438,11 +455,11 @@ theorem den_ancestralProb (hM : M.Compatible G) (hG : G.WF) (σ' : Val) {pop : O
   have hXH : ∀ x ∈ H, x ∉ X := by
     intro x hx hxX
     rcases List.mem_map.mp hxX with ⟨i, hi, rfl⟩
-    exact (hs.ivs i hi).2.1 hx
+    exact (hs.ivs i hi).2 hx
   have hZH : ∀ x ∈ H, x ∉ Z := by
     intro x hx hxZ
     rcases List.mem_map.mp hxZ with ⟨q, hq, rfl⟩
-    exact (hs.parents q hq).1 hx
+    exact (hs.parents q hq) hx
   funext σ
   rw [den_shape hM hG σ σ' hs' hoAne]
   have hden : den (M.env G) σ' (.prob pop ch pa) =
